@@ -168,6 +168,9 @@ func checkC04(r *evid.Run) {
 		checkEncoders(r, d, cs)
 		checkEncodersMassive(r, pool, d, cs[d.N%len(cs)])
 	})
+	// beyond the bound: random forests (wide nodes: 9 - 16 children, half of the time below a root; deep chains) through
+	// the encoders in simple and massive mode, the decoded forests validated by TLC (TraceDoc.tla: "tree" / "mtree")
+	traceDocs(r, "C04", traceSpec{Ops: []string{"tree"}, Params: genParams{MaxNodes: 60, MaxDepth: 7, MaxRoots: 4, NChunks: 12}, NQuick: 80, NThorough: 800})
 	sessionPhase(r) // Session.tla: the calls this property owns, after every other call of the alphabet
 	r.Set("exhaustive", true)
 	r.Set("rule", "every forest up to the bound over 4 names x {JSON, YAML, TOML(single root)} x {From-Markdown iter, From-Markdown slice, From-Root}, decoded with the decoders gtree links and compared structurally; each under hostile concretisations of the chunks; non-trivial = at least 2 nodes")
